@@ -437,7 +437,7 @@ Qed.
 Theorem rename_names s old new s' : names_unique s -> rename s old new = Ok s' -> names_unique s'.
 Proof.
   intros Hu. unfold rename. destruct (find_named s old) as [x|] eqn:Ex; [|discriminate].
-  destruct (negb _ && _); [discriminate|].
+  destruct (negb _ && _); [discriminate|]. destruct (Nat.leb 1 (g_vlevel s) && _); [discriminate|].
   destruct (find_named s new) as [y|] eqn:Ey.
   - destruct (Nat.eqb (g_id y) (g_id x)); [intros H; injection H as <-; exact Hu | discriminate].
   - intros H. injection H as <-. unfold names_unique, ns_names. cbn [lines]. rewrite flat_map_app, ns_names_map_rename.
